@@ -54,7 +54,7 @@ package sync
 //@   requires from.IsZero() || from.Height() == storeTailH
 //@   requires [C16] within-store: from.IsZero() || to.Height() <= from.Height() || to.Height() <= storeLow + 1
 //@   requires from.IsZero() || (verified(to) && from.Height() < MaxUint64)
-//@   modifies ghost:storeTailH, ghost:storeLow, AP_set, AP_val_Hdr, ghost:storeAppends, ghost:appendedTop, errNonAdjacent.Head, errNonAdjacent.Attempted, $now, ranges.ranges, headerRange.headers, headerRange.start, State.ID, State.FromHeight, State.ToHeight, State.FromHash, State.ToHash, State.Start, State.End, State.Error, Parameters.hash
+//@   modifies ghost:storeTailH, ghost:storeLow, AP_set, AP_val_Hdr, ghost:storeAppends, ghost:appendedTop, errNonAdjacent.Head, errNonAdjacent.Attempted, $now, ranges.ranges, headerRange.headers, headerRange.start, State.ID, State.FromHeight, State.ToHeight, State.FromHash, State.ToHash, State.Start, State.End, State.Error, Parameters.hash, ghost:pendingAdds
 
 //@ func (*Syncer).renewTail(s, ctx, oldTail, head)
 //@   props C16, C03
@@ -70,19 +70,20 @@ package sync
 //@   props C16
 //@   requires [C16,local] valid-params: validParams(s.Params)
 //@   requires [C16,local] entry-assumptions: !head.IsZero() && 1 <= head.Height() && head.Height() < MaxUint64 && storeHeightBound <= head.Height() && storeTailH <= head.Height()
-//@   modifies ghost:storeTailH, ghost:storeLow, Parameters.hash, AP_set, AP_val_Hdr, ghost:storeAppends, ghost:appendedTop, errNonAdjacent.Head, errNonAdjacent.Attempted, $now, ranges.ranges, headerRange.headers, headerRange.start, State.ID, State.FromHeight, State.ToHeight, State.FromHash, State.ToHash, State.Start, State.End, State.Error
+//@   modifies ghost:storeTailH, ghost:storeLow, Parameters.hash, AP_set, AP_val_Hdr, ghost:storeAppends, ghost:appendedTop, errNonAdjacent.Head, errNonAdjacent.Attempted, $now, ranges.ranges, headerRange.headers, headerRange.start, State.ID, State.FromHeight, State.ToHeight, State.FromHash, State.ToHash, State.Start, State.End, State.Error, ghost:pendingAdds
 
 // ---- bifurcation (C15)
 
 //@ func (*Syncer).setLocalHead(s, ctx, netHead)
-//@   props C15, C03
+//@   props C15, C03, C07
 //@   requires [C15,C03] verified-target: verified(netHead)
-//@   modifies AP_set, AP_val_Hdr, elems(H), EH_Int, headerRange.headers, headerRange.start, ranges.ranges, $now, ghost:storeAppends, ghost:appendedTop, errNonAdjacent.Head, errNonAdjacent.Attempted
+//@   before wantSync [C07] target-recorded-before-wakeup: pendingAdds == old(pendingAdds) + 1 -- the sync loop must find the new target when the trigger wakes it
+//@   modifies AP_set, AP_val_Hdr, elems(H), EH_Int, headerRange.headers, headerRange.start, ranges.ranges, $now, ghost:storeAppends, ghost:appendedTop, errNonAdjacent.Head, errNonAdjacent.Attempted, ghost:pendingAdds
 
 //@ func (*Syncer).verifyBifurcating(s, ctx, subjHead, newHead)
 //@   props C15
 //@   requires verified(subjHead) && newHead.Height() > subjHead.Height()
-//@   modifies AP_set, AP_val_Hdr, elems(H), EH_Int, headerRange.headers, headerRange.start, ranges.ranges, $now, ghost:storeAppends, ghost:appendedTop, errNonAdjacent.Head, errNonAdjacent.Attempted, header.VerifyError.SoftFailure
+//@   modifies AP_set, AP_val_Hdr, elems(H), EH_Int, headerRange.headers, headerRange.start, ranges.ranges, $now, ghost:storeAppends, ghost:appendedTop, errNonAdjacent.Head, errNonAdjacent.Attempted, header.VerifyError.SoftFailure, ghost:pendingAdds
 //@   ensures [C15] sound: result == nil ==> verified(newHead) && !newHead.IsZero()
 //@   ensures [C15] refusal-reason: result != nil && asVerr(result) != nil && asVerr(result).SoftFailure ==> cur(subjHeight) + 1 >= newHead.Height()
 //@ loop 0:
@@ -112,11 +113,13 @@ package sync
 
 // pending ranges never overlap (C07): a header that is not above the current pending head is dropped, it neither
 // extends a range nor starts a new one
+//@ ghost var pendingAdds int -- number of ranges.Add calls (targets recorded in the pending set)
 //@ func (*ranges).Add(rs, h)
 //@   props C03, C07
+//@   effect pendingAdds := old(pendingAdds) + 1
 //@   requires [C03] verified-pending: verified(h)
 //@   ghost hd H := result0 of call head #0
-//@   modifies ranges.ranges, headerRange.headers, headerRange.start, elems(H), EH_Int
+//@   modifies ranges.ranges, headerRange.headers, headerRange.start, elems(H), EH_Int, ghost:pendingAdds
 //@   ensures [C07] not-above-head-is-dropped: !hd.IsZero() && h.Height() <= hd.Height() ==> len(rs.ranges) == old(len(rs.ranges))
 //@   ensures [C07] grows-by-at-most-one: len(rs.ranges) == old(len(rs.ranges)) || len(rs.ranges) == old(len(rs.ranges)) + 1
 
@@ -133,12 +136,12 @@ package sync
 
 //@ func (*Syncer).verify(s, ctx, newHead)
 //@   props C03, C15
-//@   modifies AP_set, AP_val_Hdr, elems(H), EH_Int, headerRange.headers, headerRange.start, ranges.ranges, $now, ghost:storeAppends, ghost:appendedTop, errNonAdjacent.Head, errNonAdjacent.Attempted, header.VerifyError.SoftFailure
+//@   modifies AP_set, AP_val_Hdr, elems(H), EH_Int, headerRange.headers, headerRange.start, ranges.ranges, $now, ghost:storeAppends, ghost:appendedTop, errNonAdjacent.Head, errNonAdjacent.Attempted, header.VerifyError.SoftFailure, ghost:pendingAdds
 //@   ensures [C03,C15] sound: result == nil ==> verified(newHead) && !newHead.IsZero()
 
 //@ func (*Syncer).incomingNetworkHead(s, ctx, head)
 //@   props C03, C15
-//@   modifies AP_set, AP_val_Hdr, elems(H), EH_Int, headerRange.headers, headerRange.start, ranges.ranges, $now, ghost:storeAppends, ghost:appendedTop, errNonAdjacent.Head, errNonAdjacent.Attempted, header.VerifyError.SoftFailure
+//@   modifies AP_set, AP_val_Hdr, elems(H), EH_Int, headerRange.headers, headerRange.start, ranges.ranges, $now, ghost:storeAppends, ghost:appendedTop, errNonAdjacent.Head, errNonAdjacent.Attempted, header.VerifyError.SoftFailure, ghost:pendingAdds
 //@   ensures [C03] refused-or-verified: result == nil ==> verified(head) && !head.IsZero()
 
 //@ func (*syncStore).Append(s, ctx, headers)
@@ -201,14 +204,14 @@ package sync
 
 //@ func (*ranges).First(rs)
 //@   trusted
-//@   modifies ranges.ranges
+//@   modifies ranges.ranges, ghost:pendingAdds
 //@   ensures result1 ==> result0 != nil && len(result0.headers) > 0 && rangeOK(result0) && result0.start >= 1
 //@   ensures result1 ==> forall k int :: off(result0.headers) <= k && k < off(result0.headers) + len(result0.headers) ==> verified(at(result0.headers, k))
 
 //@ func (*Syncer).processHeaders(s, ctx, fromHead, to)
 //@   props C07, C03
 //@   requires verified(fromHead) && to < MaxUint64
-//@   modifies AP_set, AP_val_Hdr, ghost:storeAppends, ghost:appendedTop, errNonAdjacent.Head, errNonAdjacent.Attempted, $now, ranges.ranges, headerRange.headers, headerRange.start
+//@   modifies AP_set, AP_val_Hdr, ghost:storeAppends, ghost:appendedTop, errNonAdjacent.Head, errNonAdjacent.Attempted, $now, ranges.ranges, headerRange.headers, headerRange.start, ghost:pendingAdds
 //@   ensures [C07] reaches-target: result == nil && fromHead.Height() < to ==> appendedTop == to
 //@ loop 0:
 //@   invariant [C07] progress: (fromHead.Height() <= to || fromHead.Height() == old(fromHead).Height()) && verified(fromHead)
@@ -217,7 +220,7 @@ package sync
 //@ func (*Syncer).doSync(s, ctx, fromHead, toHead)
 //@   props C07
 //@   requires verified(fromHead) && toHead.Height() < MaxUint64
-//@   modifies AP_set, AP_val_Hdr, ghost:storeAppends, ghost:appendedTop, errNonAdjacent.Head, errNonAdjacent.Attempted, $now, ranges.ranges, headerRange.headers, headerRange.start, State.ID, State.FromHeight, State.ToHeight, State.FromHash, State.ToHash, State.Start, State.End, State.Error
+//@   modifies AP_set, AP_val_Hdr, ghost:storeAppends, ghost:appendedTop, errNonAdjacent.Head, errNonAdjacent.Attempted, $now, ranges.ranges, headerRange.headers, headerRange.start, State.ID, State.FromHeight, State.ToHeight, State.FromHash, State.ToHash, State.Start, State.End, State.Error, ghost:pendingAdds
 //@   ensures [C07] reaches-target: result == nil && fromHead.Height() < toHead.Height() ==> appendedTop == toHead.Height()
 //@   ensures [C07] state-cleared: result == nil ==> s.state.Error == ""
 //@   ensures [C07] state-range: s.state.ToHeight == toHead.Height() && s.state.FromHeight == u64(fromHead.Height() + 1)
@@ -263,7 +266,7 @@ package sync
 //@   ghost sbj H := result0 of call subjectiveHead #0
 //@   ghost sbjInit bool := result1 of call subjectiveHead #0
 //@   ghost sbjErr error := result2 of call subjectiveHead #0
-//@   modifies AP_set, AP_val_Hdr, elems(H), EH_Int, headerRange.headers, headerRange.start, ranges.ranges, $now, ghost:storeAppends, ghost:appendedTop, errNonAdjacent.Head, errNonAdjacent.Attempted, header.VerifyError.SoftFailure, ghost:headCalls, ghost:lastTrusted, syncHead.headCh, syncHead.resHead, syncHead.resErr
+//@   modifies AP_set, AP_val_Hdr, elems(H), EH_Int, headerRange.headers, headerRange.start, ranges.ranges, $now, ghost:storeAppends, ghost:appendedTop, errNonAdjacent.Head, errNonAdjacent.Attempted, header.VerifyError.SoftFailure, ghost:headCalls, ghost:lastTrusted, syncHead.headCh, syncHead.resHead, syncHead.resErr, ghost:pendingAdds
 //@   ensures [C19] error-only-from-subjective: result2 != nil <==> (called(sbjErr) && sbjErr != nil)
 //@   ensures [C19] no-downgrade: result2 == nil ==> result0.Height() >= sbj.Height() && !result0.IsZero()
 //@   ensures [C19] recent-no-traffic: result2 == nil && !sbjInit && recentAt(sbj, s.Params.blockTime, s.Params.recencyThreshold, now) ==> headCalls == old(headCalls) && result0 == sbj && !result1
@@ -273,6 +276,6 @@ package sync
 
 //@ func (*Syncer).Head(s, ctx, opts)
 //@   props C19
-//@   modifies AP_set, AP_val_Hdr, elems(H), EH_Int, headerRange.headers, headerRange.start, ranges.ranges, $now, ghost:storeAppends, ghost:appendedTop, errNonAdjacent.Head, errNonAdjacent.Attempted, header.VerifyError.SoftFailure, ghost:headCalls, ghost:lastTrusted, syncHead.headCh, syncHead.resHead, syncHead.resErr, ghost:storeTailH, ghost:storeLow, Parameters.hash
+//@   modifies AP_set, AP_val_Hdr, elems(H), EH_Int, headerRange.headers, headerRange.start, ranges.ranges, $now, ghost:storeAppends, ghost:appendedTop, errNonAdjacent.Head, errNonAdjacent.Attempted, header.VerifyError.SoftFailure, ghost:headCalls, ghost:lastTrusted, syncHead.headCh, syncHead.resHead, syncHead.resErr, ghost:storeTailH, ghost:storeLow, Parameters.hash, ghost:pendingAdds
 //@   ensures [C19] non-zero: result1 == nil ==> !result0.IsZero()
 //@   ensures [C19] at-most-two-requests: headCalls <= old(headCalls) + 2
